@@ -235,6 +235,37 @@ func init() {
 				}
 			}
 		}
+		// (a') orphan chunks: a long value, a shorter one over it (the long one's last chunks stay
+		// behind, unreferenced), delete — then store-type commands of long values again: what is
+		// left over of an earlier value must not influence them
+		for ci, cfg := range chunkedConfigs(tier) {
+			for vi, again := range []string{"add", "set", "replace"} {
+				key := []byte(fmt.Sprintf("orph%d", vi))
+				pl := 1184 - 71 - len(key) - 16
+				mk := func(n int, b byte) []byte { return bytes.Repeat([]byte{b}, n) }
+				sc := Scenario{ID: fmt.Sprintf("C04-orphan-%d-%s", ci, again), Stack: cfg, Conns: conns}
+				feed := func(conn string, c Command) { sc.Steps = append(sc.Steps, Step{Kind: "feed", Conn: conn, Cmd: c}) }
+				get := Command{Kind: "get", Keys: []GetKey{{Key: key, Opaque: 9}}}
+				feed("b", Command{Kind: "set", Key: key, Flags: 1, Data: mk(3*pl+1, 'L'), Opaque: 1})
+				feed("t", Command{Kind: "set", Key: key, Flags: 2, Data: mk(10, 's'), Opaque: 2})
+				if again != "replace" {
+					feed("b", Command{Kind: "delete", Key: key, Opaque: 3})
+				}
+				feed("t", get)
+				feed("b", Command{Kind: again, Key: key, Flags: 3, Data: mk(2*pl+5, 'N'), Opaque: 4})
+				feed("t", get)
+				feed("b", Command{Kind: "gat", Key: key, Exptime: 500, Opaque: 5})
+				feed("t", Command{Kind: "append", Key: key, Data: []byte("+tail"), Opaque: 6})
+				feed("b", get)
+				feed("t", Command{Kind: "delete", Key: key, Opaque: 7})
+				feed("b", Command{Kind: "add", Key: key, Flags: 4, Data: mk(4*pl, 'Z'), Opaque: 8})
+				feed("t", get)
+				if !runOne(sc, "orphan-"+again) {
+					rep.Distinct = len(distinct)
+					return
+				}
+			}
+		}
 		// (b) random sequences over confusable key alphabets
 		per, steps := 10, 30
 		if tier == "thorough" {
